@@ -2,11 +2,11 @@
 import math, random
 import numpy as np
 from scipy import sparse
-import tvlib, harness_acd
+import tvlib, harness_acd, harness_solvers
 import solverlib as sl
 
-GEN_SOURCES = []
-EXTRA_TARGETS = ["Skel/MockACD.vo"]
+GEN_SOURCES = ["skglm/solvers/gram_cd.py"]
+EXTRA_TARGETS = ["Skel/MockACD.vo", "Skel/CorrSolvers.vo", "Skel/GramCDProofs.vo"]
 TRUSTED_BASE = [
     "Coq 8.16.1 kernel (coqc); vm_compute only in correspondence files",
     "no axioms (theorems over an abstract Num type and lists)",
@@ -25,9 +25,10 @@ def correspondence(tier, rng):
     n = 60 if tier == "quick" else 400
     cases, dist = harness_acd.make_cases(rng, n)
     r1 = tvlib.run_cases(cases, ["Skel.AndersonCD", "Skel.MockACD"], "C17a", shard=12, jobs=16)
-    return dict(cases=len(cases), bad=r1["bad"][:10], errors=r1["errors"], distribution=dist,
+    base = dict(cases=len(cases), bad=r1["bad"][:10], errors=r1["errors"], distribution=dist,
                 distinct_nontrivial=sum(1 for c in cases if "'iters': 0" not in c[0]),
                 samples=[dict(trace=cases[0][0][:600])])
+    return harness_solvers.merge_corr(base, harness_solvers.solver_corr(tier, rng, "C17s"))
 
 
 def _runs(rng):
